@@ -221,6 +221,17 @@ func runC15(c *Ctx) {
 		}
 		unit := PickS(c.R, []string{"bytes", "kb", "ns", "ms", "seconds", "count", "widgets", "gcu", "milligcu", "MB"})
 		out := PickS(c.R, []string{"auto", "minimum", "", "kb", "mb", "gb", "us", "s", "hrs", "widgets", "bytes", "kilogcu"})
+		if k%4 == 0 { // a diff-like report: entries several units apart, the smallest one negative
+			vs = []int64{int64(1+c.R.Intn(20)) * 1000000000, int64(1+c.R.Intn(9)) * 1000000, -int64(1+c.R.Intn(9)) * int64(PickI(c.R, []int64{1, 1000, 1000000}))}
+			if c.R.Bool() {
+				vs[0] = -vs[0]
+			}
+			if vs[1] == -vs[2] { // keep |value| pairwise distinct: the order of ties is not this property's
+				vs[1]++
+			}
+			names = []string{"f1", "f2", "f3"}
+			unit, out = PickS(c.R, []string{"ns", "bytes", "nanogcu", "us"}), "minimum"
+		}
 		ratio := []float64{0, 1, 0.5, 0.25, 2, 4, 0.1, 1.0 / 3, 0.001, 1.5}[c.R.Intn(10)]
 		in := []Term{}
 		for i := range vs {
